@@ -327,8 +327,9 @@ class Interp:
             y = y.strip()
         x = self._get(name, track)
         tq = [q for q in quals if q in table.QUALS]
-        if "asbool" in tq and isinstance(y, float) and y != y:
-            raise Undefined("asbool of nan")
+        if tq and any(isinstance(v, float) and v != v for v in (x, y)):
+            # asbool / increase / decrease / onchange of nan: nothing documents how nan votes or compares
+            raise Undefined("qualified assignment involving nan")
         if tq and not self.AND:
             raise Undefined("qualified assignment in OR mode")
         rest = True
